@@ -207,6 +207,24 @@ func classify(kind string, err error) string {
 			return "err:hash-mismatch"
 		}
 		return "err:next"
+	case "txsearchv":
+		switch {
+		case strings.HasPrefix(s, "nil tx"):
+			return "err:meta"
+		case s == "negative or zero height":
+			return "err:height"
+		case has("different data hash"):
+			return "err:proof-datahash"
+		case has("index cannot be negative"):
+			return "err:proof-index"
+		case has("total must be positive"):
+			return "err:proof-total"
+		case has("not internally consistent"):
+			return "err:proof-inconsistent"
+		case has("different transaction than the one returned"):
+			return "err:tx-mismatch"
+		}
+		return "err:next"
 	case "cparams":
 		switch {
 		case s == "negative or zero height":
@@ -274,7 +292,7 @@ func execCase1(c core.Case) []string {
 	var out []string
 	var s *session
 	var n, trustSeen int
-	var metaLines []string
+	var metaLines, stxLines []string
 	ctx := context.Background()
 	for _, op := range c.Ops {
 		f := strings.Fields(op)
@@ -300,6 +318,21 @@ func execCase1(c core.Case) []string {
 		}
 		if kind == "committed" {
 			out = append(out, committedTable(m["kind"], m["field"]))
+			continue
+		}
+		if kind == "route" {
+			// every route the proxy registers, classified by what the real handler does
+			_, class := classifyRoutes(getChain(chainSpec{seed: 3, n: 6, nv: 2, events: true, txs: true}))
+			if cl, ok := class[m["name"]]; ok {
+				out = append(out, cl)
+			} else {
+				out = append(out, "unknown")
+			}
+			continue
+		}
+		if kind == "routes" {
+			names, _ := classifyRoutes(getChain(chainSpec{seed: 3, n: 6, nv: 2, events: true, txs: true}))
+			out = append(out, strings.Join(names, ","))
 			continue
 		}
 		if s == nil {
@@ -339,7 +372,37 @@ func execCase1(c core.Case) []string {
 			continue
 		}
 		if kind == "txsearch" {
+			s.be.p = &plan{mut: "none"}
 			out = append(out, execTxSearch(s, m))
+			continue
+		}
+		if kind == "stx" {
+			stxLines = append(stxLines, op)
+			out = append(out, "ok")
+			continue
+		}
+		if kind == "txsearchv" { // the verifying client on a (falsified) tx_search answer
+			s.be.p = &plan{mut: m["mut"], marg: atoi(m["marg"])}
+			res := ""
+			func() {
+				defer func() {
+					if r := recover(); r != nil {
+						res = "panic"
+					}
+				}()
+				_, err := s.cl.TxSearch(ctx, string(unhx(m["q"])), m["prove"] == "1", nil, nil, "asc")
+				res = classify("txsearchv", err)
+				if err == nil && m["prove"] != "1" {
+					res = "ok-unverified"
+				}
+			}()
+			sv, _ := s.be.p.served.(*ctypes.ResultTxSearch)
+			d, lines := dumpTxSearch(sv)
+			if !strings.HasSuffix(op, " | "+d) || strings.Join(lines, "\n") != strings.Join(stxLines, "\n") {
+				res += " DUMP-MISMATCH"
+			}
+			stxLines = nil
+			out = append(out, res)
 			continue
 		}
 		s.be.p = &plan{mut: m["mut"], marg: atoi(m["marg"]), err: m["mut"] == "backend-error"}
@@ -444,6 +507,21 @@ func execCase1(c core.Case) []string {
 	return out
 }
 
+func dumpTxSearch(res *ctypes.ResultTxSearch) (string, []string) {
+	if res == nil {
+		return "err=1", nil
+	}
+	var lines []string
+	for _, t := range res.Txs {
+		if t == nil {
+			lines = append(lines, "stx nil=1")
+		} else {
+			lines = append(lines, "stx nil=0 "+dumpTx(t))
+		}
+	}
+	return fmt.Sprintf("err=0 total=%d n=%d", res.TotalCount, len(res.Txs)), lines
+}
+
 func blockTxsLine(c *chain, h int64) string {
 	txs := make([][]byte, len(c.txsAt[h]))
 	for i, t := range c.txsAt[h] {
@@ -452,8 +530,7 @@ func blockTxsLine(c *chain, h int64) string {
 	return fmt.Sprintf("blocktxs h=%d txs=%s", h, hxList(txs))
 }
 
-// execTxSearch asks the verifying client (which relays to the real rpc/core handler) and renders
-// every served result with its proof
+// execTxSearch asks the full node (real rpc/core handler) and renders every served result with its proof
 func execTxSearch(s *session, m map[string]string) (res string) {
 	defer func() {
 		if r := recover(); r != nil {
@@ -464,7 +541,8 @@ func execTxSearch(s *session, m map[string]string) (res string) {
 	if order == "-" {
 		order = ""
 	}
-	r, err := s.cl.TxSearch(context.Background(), string(unhx(m["q"])), m["prove"] == "1", optInt(m["page"]), optInt(m["per"]), order)
+	// the real rpc/core handler (plus the JSON round trip), without the verifying client in between
+	r, err := s.be.TxSearch(context.Background(), string(unhx(m["q"])), m["prove"] == "1", optInt(m["page"]), optInt(m["per"]), order)
 	if err != nil {
 		switch {
 		case strings.Contains(err.Error(), "expected order_by"):
@@ -569,6 +647,8 @@ func fieldOf(kind, mut string) string {
 
 // ---- oracle: the property itself on the implementation's outputs ----
 
+var _ = searchMuts
+
 var kindName = map[string]string{"block": "Block", "blockbyhash": "BlockByHash", "bcinfo": "BlockchainInfo", "commit": "Commit",
 	"validators": "Validators", "tx": "Tx", "abci": "ABCIQuery", "cparams": "ConsensusParams", "bresults": "BlockResults"}
 
@@ -586,6 +666,16 @@ func oracle(c core.Case, out []string) []core.Finding {
 		o := out[i]
 		if kind == "chain" && o == "ok" {
 			ch = getChain(specOf(m))
+			continue
+		}
+		if kind == "txsearchv" && ch != nil && o != "bad-op" {
+			acc := o == "ok"
+			if m["mut"] == "none" && m["exp"] == "ok" && !acc {
+				add("lightrpc.TxSearch.honest-answer-rejected:"+strings.Fields(o)[0], "honest full node, but TxSearch answered "+o+" (op: "+op+")")
+			}
+			if m["mut"] != "none" && m["class"] == "bound" && acc {
+				add("lightrpc.TxSearch.accepts-falsified."+m["mut"], "TxSearch relayed an answer whose field "+m["mut"]+" was falsified (op: "+op+")")
+			}
 			continue
 		}
 		if kind == "txsearch" && ch != nil && o != "bad-op" {
@@ -736,6 +826,34 @@ func servedOracle(ch *chain, m map[string]string, o string) []core.Finding {
 	return fs
 }
 
+// searchCall renders a tx_search answer (one stx line per listed transaction) and the call line
+func (g *gen) searchCall(q string, prove int, mi mutInfo, marg int) []string {
+	g.be.p = &plan{mut: "none"}
+	hon, _ := g.be.TxSearch(context.Background(), q, prove == 1, nil, nil, "asc")
+	g.be.p = &plan{mut: mi.name, marg: marg}
+	served, _ := g.be.TxSearch(context.Background(), q, prove == 1, nil, nil, "asc")
+	if mi.name != "none" && jsonOf(hon) == jsonOf(served) {
+		mi = mutInfo{"none", "none"}
+	}
+	class := mi.class
+	if mi.name == "Txs.Height" && served != nil { // the proof may fit the other block as well (same transactions)
+		for i, t := range served.Txs {
+			if t != nil && hon.Txs[i].Height != t.Height {
+				if lb, lb0 := g.c.lbs[t.Height], g.c.lbs[hon.Txs[i].Height]; lb != nil && bytes.Equal(lb.DataHash, lb0.DataHash) {
+					class = "free"
+				}
+			}
+		}
+	}
+	exp := "any"
+	if mi.name == "none" && served != nil && prove == 1 {
+		exp = "ok"
+	}
+	mutHist["txsearch/"+mi.name]++
+	d, lines := dumpTxSearch(served)
+	return append(lines, fmt.Sprintf("txsearchv q=%s prove=%d mut=%s marg=%d class=%s exp=%s | %s", hx([]byte(q)), prove, mi.name, marg, class, exp, d))
+}
+
 // searchSession: what a full node's RPC serves (Tx and TxSearch with proofs, both orders, pages
 // spanning several heights, blocks with different numbers of transactions)
 func searchSession(r *rand.Rand, tier string) core.Case {
@@ -792,6 +910,13 @@ func searchSession(r *rand.Rand, tier string) core.Case {
 			prove = 0
 		}
 		ops = append(ops, fmt.Sprintf("txsearch q=%s prove=%d page=%s per=%s order=%s hits=%s", hx([]byte(q)), prove, page, per, order, hl))
+		if r.Intn(2) == 0 { // the same query through the verifying client, honest or falsified
+			mi := mutInfo{"none", "none"}
+			if r.Intn(3) != 0 {
+				mi = searchMuts[r.Intn(len(searchMuts))]
+			}
+			ops = append(ops, g.searchCall(q, prove, mi, r.Intn(500))...)
+		}
 	}
 	return core.Case{Kind: "served", Ops: ops}
 }
@@ -1297,6 +1422,14 @@ func genCases(r *rand.Rand, tier string, emit func(core.Case)) {
 	}
 	ops = append(ops, "committed kind=block field=Nonsense")
 	emit(core.Case{Kind: "table", Ops: ops})
+	// every route of light/proxy/routes.go, classified behaviourally, against the model's table
+	rnames, _ := classifyRoutes(getChain(chainSpec{seed: 3, n: 6, nv: 2, events: true, txs: true}))
+	rops := []string{"routes"}
+	for _, n := range rnames {
+		rops = append(rops, "route name="+n)
+	}
+	rops = append(rops, "route name=no_such_route")
+	emit(core.Case{Kind: "table", Ops: rops})
 }
 
 func tableKeys() [][2]string {
